@@ -71,6 +71,10 @@ func vmImpAst(i *Interpreter, n ast.Node) (string, *node, error) {
 }
 
 func vmImpGta(i *Interpreter, root *node, rpath, importPath, pkgName string) ([]*node, error) {
+	vhGtaRoots = append(vhGtaRoots, rpath)
+	if vhSubStop {
+		return nil, errors.New("stop here")
+	}
 	if vhImpFail[2] {
 		return nil, errors.New("gta error")
 	}
@@ -209,4 +213,68 @@ func vhScenarioImportError(map[string]string) bool {
 var vhImportScenarios = map[string]func(map[string]string) bool{
 	"C16.once": vhScenarioImportOnce, "C16.cycle": vhScenarioImportCycle,
 	"C16.importSrc.run-order": vhScenarioImportOrder, "C16.importSrc.no-run-on-error": vhScenarioImportError,
+}
+
+// ---- the root handed to nested imports -----------------------------------
+//
+// importSrc resolves the package directory, then compiles its files with a
+// root (the rPath argument of gta) against which the package's own imports will
+// be resolved. Go's rule: that root is the package's own directory (relative
+// to GOPATH/src), wherever it was found - below a vendor directory, in
+// GOPATH/src, or as a sub-package named by its full path.
+// Real code: importSrc down to gta, pkgDir, previousRoot, effectivePkg over an
+// uninterpreted directory tree; parse/ast/gta are models (gta records its root).
+
+type vhSubFS struct{ vhFS }
+
+var vhSubReadDir []string
+
+func (vhSubFS) ReadDir(name string) ([]fs.DirEntry, error) {
+	vhSubReadDir = append(vhSubReadDir, name)
+	return []fs.DirEntry{vhDirEnt{"a.go"}}, nil
+}
+func (vhSubFS) ReadFile(name string) ([]byte, error) { return []byte("package p\n"), nil }
+
+var (
+	vhGtaRoots []string // the roots handed to gta
+	vhSubStop  bool     // the nested-root obligation stops the import at gta
+)
+
+var vhSubShape = 0 // 0: unrelated path in GOPATH/src, 1: in the importer's vendor directory, 2: a sub-package named by its full path
+
+func vh_import_subroot() {
+	vhResetClock()
+	i := vhNewInterp()
+	i.opt.filesystem = vhSubFS{}
+	i.opt.context.GOPATH = vhGoPath
+	i.srcPkg = map[string]map[string]*symbol{}
+	i.pkgNames = map[string]string{}
+	i.rdir = map[string]bool{}
+	i.name = "m/main.go"
+	w1, w2 := vNondetWordN("root", vhSegChars, 1, 5), vNondetWordN("root", vhSegChars, 1, 5)
+	v1 := vNondetWordN("imp", vhSegChars, 1, 5)
+	root := w1 + "/" + w2
+	src := vhGoPath + "/src/"
+	imp, dir := v1, ""
+	// the tree: exactly the directory where Go finds the package exists among the candidates
+	switch vhSubShape {
+	case 0:
+		dir = src + imp
+		vAssume(!vPred("isdir", src+root+"/vendor/"+imp) && !vPred("isdir", src+w1+"/vendor/"+imp) && !vPred("isdir", src+"vendor/"+imp))
+		vAssume(!vPred("isdir", src+root+"/"+imp) && !vPred("isdir", src+w1+"/"+imp)) // (not the known importer-subdir candidates)
+		vAssume(!vPred("isdir", src+root+"/vendor") && !vPred("isdir", src+w1+"/vendor"))
+	case 1:
+		dir = src + root + "/vendor/" + imp
+	default:
+		imp = root + "/" + v1
+		dir = src + imp
+		vAssume(!vPred("isdir", src+root+"/vendor/"+imp))
+	}
+	vAssume(vPred("isdir", dir))
+	vhSubReadDir, vhGtaRoots, vhSubStop = nil, nil, true
+	vReach("C16.subroot")
+	i.importSrc(root, imp, NoTest)
+	vhSubStop = false
+	vAssert("C16.importSrc.reads-resolved-dir", len(vhSubReadDir) == 1 && vhSubReadDir[0] == dir)
+	vAssert("C16.importSrc.nested-root-is-package-dir", len(vhGtaRoots) == 1 && src+vhGtaRoots[0] == dir)
 }
